@@ -478,10 +478,7 @@ func (c *Ctx) PANICNIL(rule string, entry ...string) []report.Obligation {
 				if key == "" {
 					continue
 				}
-				pt := base.Type().Underlying().(*types.Pointer)
-				if _, isStruct := pt.Elem().Underlying().(*types.Struct); !isStruct {
-					continue
-				}
+				// optional scalars (*int, *bool, *string ...) are followed with a plain load
 				n++
 				guarded := stored[key] || factHolds(b, func(cond ssa.Value, val bool) bool {
 					bo, ok := cond.(*ssa.BinOp)
